@@ -1,6 +1,7 @@
 package props
 
 import (
+	"bytes"
 	"context"
 	"crypto/tls"
 	"errors"
@@ -9,6 +10,7 @@ import (
 	"net"
 	"net/http"
 	"net/url"
+	"slices"
 	"strings"
 	"sync"
 
@@ -59,6 +61,7 @@ func genC19(env *core.Env, emit func(core.Case)) {
 		// zone: every host resolves to the same address (distinct origins sharing an address)
 		u := zoneh.Universe{}
 		shapes := map[string]string{}
+		zoneRecs := map[string][]*zoneh.HTTPS{} // the service-mode records each host publishes, in the order the server lists them
 		for hi, h := range hosts {
 			u[zoneh.Key{Name: h, Type: 1}] = zoneh.Resp{Answers: []zoneh.Ans{{Owner: h, Type: 1, TTL: 60, IP: []byte{10, 7, 0, 1}}}}
 			u[zoneh.Key{Name: h, Type: 28}] = zoneh.Resp{}
@@ -94,6 +97,7 @@ func genC19(env *core.Env, emit func(core.Case)) {
 				if hr.Priority == 0 {
 					hr = &zoneh.HTTPS{Priority: 0, Target: ""} // alias to ".": no service
 				}
+				zoneRecs[h] = append(zoneRecs[h], hr)
 				shape += fmt.Sprintf("%d%s%v|", hr.Priority, strings.Join(hr.ALPN, ","), hr.NoDef)
 				ans = append(ans, zoneh.Ans{Owner: h, Type: 65, TTL: 60, HTTPS: hr})
 			}
@@ -117,7 +121,10 @@ func genC19(env *core.Env, emit func(core.Case)) {
 			panic(err)
 		}
 		// a short sequence of requests on one Transport (connection reuse across origins?)
-		type dcall struct{ addr, sn string }
+		type dcall struct {
+			addr, sn string
+			ech      []byte
+		}
 		var dmu sync.Mutex
 		var dcalls []dcall
 		enumerate := false
@@ -133,7 +140,7 @@ func genC19(env *core.Env, emit func(core.Case)) {
 			dmu.Lock()
 			late := ctx.Err() != nil
 			if !late {
-				dcalls = append(dcalls, dcall{addr, tc.ServerName})
+				dcalls = append(dcalls, dcall{addr, tc.ServerName, bytes.Clone(tc.EncryptedClientHelloConfigList)})
 			}
 			en := enumerate
 			dmu.Unlock()
@@ -242,12 +249,35 @@ func genC19(env *core.Env, emit func(core.Case)) {
 			}
 			// run 1: enumeration
 			obsE, _, _, _ := do(true)
+			// HTTP/3 is chosen iff the most-preferred usable record - by SvcPriority, whatever order the
+			// server listed the records in - offers h3 (decided here from the zone, not from the resolver)
+			if zr := zoneRecs[host]; hasH3 && len(zr) > 0 && len(zr) == len(res.HTTPS) && !slices.ContainsFunc(zr, func(h *zoneh.HTTPS) bool { return h.Priority == 0 }) {
+				sorted := slices.Clone(zr)
+				slices.SortStableFunc(sorted, func(a, b *zoneh.HTTPS) int { return a.Priority - b.Priority })
+				wantH3 := false
+				for _, h := range sorted {
+					if slices.Contains(h.ALPN, "h3") {
+						wantH3 = true
+						break
+					}
+					if !h.NoDef || slices.Contains(h.ALPN, "h2") || slices.Contains(h.ALPN, "http/1.1") {
+						break
+					}
+				}
+				if (obsE["h3"] == "1") != wantH3 && w == "" {
+					w = fmt.Sprintf("%s: HTTP/3 used = %v, but by SvcPriority the most-preferred usable record of %s offers h3 = %v (records as served: %s)", rawURL, obsE["h3"] == "1", host, wantH3, shapes[host])
+				}
+			}
 			if obsE["h3"] == "0" && obsE["plain"] == "0" {
 				dmu.Lock()
 				var tl []string
 				for _, c := range dcalls {
-					// find ECH/ALPN? only address and port are observable here
-					tl = append(tl, c.addr)
+					// the address and the ECH config list the attempt was made with
+					e := "-"
+					if len(c.ech) > 0 {
+						e = core.Hex(c.ech)
+					}
+					tl = append(tl, c.addr+"/"+e)
 				}
 				dmu.Unlock()
 				// compare addresses only: render model targets as addr list too (done in Go below)
@@ -327,7 +357,7 @@ func genC19(env *core.Env, emit func(core.Case)) {
 						return "_"
 					}
 					return hs2(d)
-				}()), Kind: 'M', Want: "match", Note: "addresses dialled (all attempts failing) == targets of the filtered record set"})
+				}()), Kind: 'M', Want: "match", Note: "addresses dialled (all attempts failing), each with its ECH config list == targets of the filtered record set"})
 			}
 		}
 		// drop the placeholder plan ops (kept simple: remove ops with empty Want)
